@@ -243,7 +243,9 @@ pub fn expected_value(dt: Dt, raw: &[u8], unknown_fields_on: bool) -> Result<FV,
         }
         Dt::ProtoT => {
             if w == 1 {
-                Ok(FV::Proto(raw[0]))
+                // numbers without a variant in the library's protocol type are its `Unknown`
+                // (discriminant 145); that is the interpretation "in the type the library assigns"
+                Ok(FV::Proto(if (145..=254).contains(&raw[0]) { 145 } else { raw[0] }))
             } else {
                 Err(Why::UnsupportedWidth)
             }
@@ -300,6 +302,8 @@ pub struct MSet {
     /// absolute offset of the set header in the delivered buffer
     pub off: usize,
     pub kind: MSetKind,
+    /// data set whose template id was tainted (listed finding) when the set was met
+    pub tainted: bool,
 }
 
 #[derive(Clone, Debug, PartialEq)]
@@ -351,6 +355,14 @@ impl Walk {
         self.conformant()
             && !matches!(self.stop, Stop::V9Unknown { .. })
             && self.pkts.iter().all(|p| !p.has_unknown)
+            && !self.has_tainted()
+    }
+    /// some data set's template is unreliable on the real side (listed finding)
+    pub fn has_tainted(&self) -> bool {
+        self.pkts.iter().any(|p| match &p.body {
+            MBody::V9 { sets, .. } | MBody::Ipfix { sets, .. } => sets.iter().any(|s| s.tainted),
+            _ => false,
+        })
     }
 }
 
@@ -388,6 +400,34 @@ impl MCache {
             }
         }
         d.finish()
+    }
+}
+
+/// A cached definition may come from a resync with the real parser after garbage; data sets
+/// are only judged under definitions a conformant exporter could have sent.
+pub fn def_conformant(proto: Proto, def: &TDef) -> bool {
+    match (proto, def) {
+        (Proto::V9, TDef::Tpl { field_count, fields }) => {
+            usize::from(*field_count) == fields.len() && !fields.is_empty() && fields.iter().all(|f| f.len != 0 && f.len != 65535 && f.ent.is_none())
+        }
+        (Proto::V9, TDef::V9Opt { scope_len, opt_len, scope, opts }) => {
+            usize::from(*scope_len) == 4 * scope.len()
+                && usize::from(*opt_len) == 4 * opts.len()
+                && !scope.is_empty()
+                && scope.iter().all(|f| (1..=5).contains(&f.typ) && f.len != 0 && f.len != 65535)
+                && opts.iter().all(|f| f.len != 0 && f.len != 65535)
+        }
+        (Proto::Ipfix, TDef::Tpl { field_count, fields }) => {
+            usize::from(*field_count) == fields.len()
+                && fields.iter().map(|f| if f.len == 65535 { 1 } else { usize::from(f.len) }).sum::<usize>() > 0
+        }
+        (Proto::Ipfix, TDef::IpOpt { field_count, scope_count, fields }) => {
+            usize::from(*field_count) == fields.len()
+                && *scope_count >= 1
+                && scope_count <= field_count
+                && fields.iter().map(|f| if f.len == 65535 { 1 } else { usize::from(f.len) }).sum::<usize>() > 0
+        }
+        _ => false,
     }
 }
 
@@ -623,6 +663,9 @@ pub fn walk(buf: &[u8], cache: &mut MCache, allowed: &[u16], cfg: &ModelCfg) -> 
                         }
                         _ => match cache.v9.get(&id).cloned() {
                             None => MSetKind::UnknownTpl { tid: id },
+                            Some(def) if !def_conformant(Proto::V9, &def) => {
+                                nonconf!(pkts, pos, "cached v9 definition {} is not one a conformant exporter sends", id);
+                            }
                             Some(def @ TDef::Tpl { .. }) => {
                                 let TDef::Tpl { fields, .. } = &def else { unreachable!() };
                                 let size: usize = fields.iter().map(|f| usize::from(f.len)).sum();
@@ -674,11 +717,14 @@ pub fn walk(buf: &[u8], cache: &mut MCache, allowed: &[u16], cfg: &ModelCfg) -> 
                                 let pad = c.rest().to_vec();
                                 MSetKind::V9OData { tid: id, def, recs, pad }
                             }
-                            Some(TDef::IpOpt { .. }) => unreachable!("ipfix def in v9 map"),
+                            Some(TDef::IpOpt { .. }) => {
+                                nonconf!(pkts, pos, "foreign definition");
+                            }
                         },
                     };
                     let unknown = matches!(kind, MSetKind::UnknownTpl { .. });
-                    sets.push(MSet { id, len, off: pos, kind });
+                    let tainted = !matches!(kind, MSetKind::Tpls { .. }) && cache.tainted.contains(&(Proto::V9, id));
+                    sets.push(MSet { id, len, off: pos, kind, tainted });
                     pos += usize::from(len);
                     n += 1;
                     if unknown {
@@ -774,6 +820,13 @@ pub fn walk(buf: &[u8], cache: &mut MCache, allowed: &[u16], cfg: &ModelCfg) -> 
                                 cache.ipfix.insert(*tid, def.clone());
                                 cache.tainted.remove(&(Proto::Ipfix, *tid));
                             }
+                            if tpls.len() > 1 {
+                                // listed structural finding: the library's public shape holds one
+                                // template per IPFIX set; what it caches for these ids is unreliable
+                                for (tid, _) in &tpls {
+                                    cache.tainted.insert((Proto::Ipfix, *tid));
+                                }
+                            }
                             MSetKind::Tpls { tpls, pad }
                         }
                         0 | 1 | 4..=255 => {
@@ -783,6 +836,9 @@ pub fn walk(buf: &[u8], cache: &mut MCache, allowed: &[u16], cfg: &ModelCfg) -> 
                             None => {
                                 has_unknown = true;
                                 MSetKind::UnknownTpl { tid: id }
+                            }
+                            Some(def) if !def_conformant(Proto::Ipfix, &def) => {
+                                nonconf!(pkts, pos, "cached ipfix definition {} is not one a conformant exporter sends", id);
                             }
                             Some(def) => {
                                 let fields: Vec<FSpec> = def.all_fields().into_iter().cloned().collect();
@@ -837,7 +893,8 @@ pub fn walk(buf: &[u8], cache: &mut MCache, allowed: &[u16], cfg: &ModelCfg) -> 
                             }
                         },
                     };
-                    sets.push(MSet { id, len, off: pos, kind });
+                    let tainted = !matches!(kind, MSetKind::Tpls { .. }) && cache.tainted.contains(&(Proto::Ipfix, id));
+                    sets.push(MSet { id, len, off: pos, kind, tainted });
                     pos += usize::from(len);
                 }
                 pkts.push(MPkt {
